@@ -135,6 +135,10 @@ def decide(ctx, pid, tier, seed, t0, cmd, quiet=False, write=True):
             violations.append(o)
     missing = []
     status = 0
+    for o in obs:
+        if o.verdict == "undecided":
+            out.append("NOTE: property=%s undecided %s [%s] %s: %s" % (
+                pid, o.rule, o.key, o.site, o.detail))
     if violations:
         status = 1
         seen = set()
